@@ -291,6 +291,10 @@ class OrdinalDiscretizer(BaseDiscretizer):
         if self.str_nan:
             x_copy = x_copy.replace(self.str_nan, nan)
 
+        # checking that all unique values of qualitative ordinal features are in values_orders
+        if len(self.qualitative_features) > 0:
+            self._check_new_values(x_copy, features=self.qualitative_features)
+
         return x_copy
 
     @extend_docstring(BaseDiscretizer.fit)
